@@ -96,7 +96,7 @@ CHECKS = {
         technique="deterministic simulation (W-T table world): generated op histories + simulated clock, invariant oracle after every step"),
     "C08": dict(
         cat="exploration", ref="DESIGN.md §5 C08",
-        text="Same generated histories as C07; closest_keys / closest_values / closest_values_predicate for targets at every log2 distance (low bits set) and for distances built from word-aligned runs of set and clear bits are compared with the sorted full scan, nodes_by_distances with the stored nodes at the requested distances. Oracle distances are computed from raw id bytes.",
+        text="Same generated histories as C07; closest_keys / closest_values / closest_values_predicate for targets at every log2 distance (low bits set) and for distances built from word-aligned runs of set and clear bits are compared; distance lists of up to several hundred entries (mostly out of range) with the sorted full scan, nodes_by_distances with the stored nodes at the requested distances. Oracle distances are computed from raw id bytes.",
         note="Trusted: byte-wise XOR/log2 of the oracle. nodes_by_distances is only called with cap >= 1 and distinct distances.",
         technique="deterministic simulation (W-T table world): generated op histories, reference full-scan oracle"),
 }
@@ -104,7 +104,7 @@ CHECKS = {
 FULL_STACK = " A further scenario runs 2-5 complete Discv5 nodes (public API, service, handler, sessions, tables, query pool, receive path; all honest) on the virtual network with drop / duplicate / delay / bit-flip / late-replay / partition / node-restart faults and tiny session caches or short session lifetimes as per-run knobs"
 EXTRA = {
     "C01": " After a who-are-you query the service must not dial the claimed node at the socket the unauthenticated packet named. A second scenario runs the service world of C12: who-are-you queries for table nodes (undecryptable packets claiming them) must not change their entries. A fifth of the handler runs use an IPv6-only network. Each challenge justifies one session only; genuine handshakes are sometimes damaged in their message part and re-presented repeatedly. In a third of the runs a genuine peer lies about who it is after an honest handshake: it answers the handler's own record request (FINDNODE [0] to a contact dialled without a record) with a validly signed record of another identity. Half of the forged handshakes are followed by a second, differently made attempt against the same WHOAREYOU; in IPv6 runs the adversary sometimes sends from an IPv4-mapped source. Recorded genuine messages of an honest peer are presented to the victim from other sockets by a party without keys.",
-    "C02": " Forged messages under trivial keys are injected. Explored runs: a fifth on an IPv6-only network, peers advertising another port, datagrams presented from the sender's IP on another port or from the advertised socket. Exploration also lets a party with keys of its own answer a WHOAREYOU in the challenged peer's name from the peer's address. Explored responders sometimes announce a NODES total that is not the number of packets they send (up to 2^64-1): what is delivered must still be what the peer encrypted. Explored responders sometimes seal a hand-made NODES plaintext with a damaged record under their genuine session keys.",
+    "C02": " Forged messages under trivial keys are injected. Explored runs: a fifth on an IPv6-only network, peers advertising another port, datagrams presented from the sender's IP on another port or from the advertised socket. Exploration also lets a party with keys of its own answer a WHOAREYOU in the challenged peer's name from the peer's address. Explored responders sometimes announce a NODES total that is not the number of packets they send (up to 2^64-1): what is delivered must still be what the peer encrypted. Explored responders sometimes seal a hand-made NODES plaintext with a damaged record under their genuine session keys. Genuine datagrams are also presented from the IPv4-mapped IPv6 alias of their source.",
     "C03": " The key a node encrypts with may move back to an earlier handshake's only if a message under those keys arrived since the re-key (9 base exchanges, 5040 enumerated cases; the ninth has a request answered with three NODES packets spread over time, the forgeries echo the nonce of a recorded handshake or repeat a WHOAREYOU with another id-nonce). Exploration also presents WHOAREYOU and handshake datagrams from the sender's IP on another UDP port and delivers damaged genuine handshakes repeatedly, and holds genuine handshakes back until around or past the expiry of the challenge they answer while further undecryptable packets in the sender's name arrive.",
     "C04": " A fifth of the runs use an IPv6-only network; bit flips and late replays are part of the network profile. Session-cache capacity (1-2) and session lifetime (0.3-5 s) are per-run knobs, so sessions are evicted or expire in mid-exchange.",
     "C09": " The service-level lookup scenario has silent peers and a second lookup that runs while requests of the first are still being answered. The pool world also checks the query timeout itself (a poll that examined every query must not leave one in the pool that is past the timeout). One pool lookup in ten has parallelism 0 (it must end by the query timeout). The routing table changes while service-level lookups run." + FULL_STACK + ": every API future must return within a bound after the faults stop.",
@@ -112,13 +112,13 @@ EXTRA = {
     "C11": " The node's own max_nodes_response is 4..64 (the honest responder model follows it). ban_duration is the default, 10 min or None. The unrequested records of malicious responders are dialable, IPv6-only, without UDP port or without address. Some responders are on the application's permit lists." + FULL_STACK + ": the ban list must stay empty.",
     "C12": " On real handlers the adversary's own identity is known to the victim with a lower, equal or higher sequence number than the record its handshake attaches (a held record is replaced only by a strictly newer one). Record shapes include an IPv4 address without UDP port. The identity world includes a peer presenting another identity's record in answer to the handler's own record request. In IPv6 runs the adversary's handshakes sometimes arrive from an IPv4-mapped source.",
     "C13": " In the banned-peer scenario another endpoint on the awaited peer's IP must not profit from the exemption. A lower bound is checked as well (transmitted requests without outcome, from the request-transmission log). Session-cache capacity and lifetime are per-run knobs; a banned-peer-bypass scenario checks that an exemption really lets a banned peer's answer through and nothing else. Malicious peers also send a WHOAREYOU echoing the nonce of a request in flight from another endpoint than the dialled one." + FULL_STACK + ": all exemption maps must be empty once every API call returned and the address has been silent for a timeout.",
-    "C14": " Tables of up to 176 nodes. PING sources are IPv4, IPv6 and IPv4-mapped addresses with ports from the whole range; the local record is sometimes updated before a PING; record sizes vary at byte granularity. One request in eight names (nearly) every distance 0..=256, in any order, with duplicates and out-of-range values. A fifth of the nodes advertise no socket in their own record." + FULL_STACK + ": every NODES and PONG on the wire is decrypted with the key log and checked (requested distances only, never the requester's record, only table entries or the own record, PONG reports the requester's address and the current sequence number).",
+    "C14": " Tables of up to 176 nodes. PING sources are IPv4, IPv6 and IPv4-mapped addresses with ports from the whole range; the local record is sometimes updated before a PING; record sizes vary at byte granularity. One request in eight names (nearly) every distance 0..=256, in any order, with duplicates and out-of-range values. A fifth of the nodes advertise no socket in their own record. A quarter of the nodes listen dual-stack." + FULL_STACK + ": every NODES and PONG on the wire is decrypted with the key log and checked (requested distances only, never the requester's record, only table entries or the own record, PONG reports the requester's address and the current sequence number).",
     "C15": " A retransmission mode (retries 2-3, sessions shorter than a request timeout, late answers). The victim's application sometimes answers only after the session a request came in on has expired; a fifth of the runs use IPv6. A third scenario combines both: a full cache in which one session expires (its peer possibly crashed, the expired entry possibly looked up again) must drop that one, not a live one, when a new peer arrives. Replayed old datagrams include handshakes (no use of any session: neither idle time nor recency rank may change). Who-are-you queries raised by undecryptable packets are sometimes answered late by the application (no use of a session).",
     "C16": " The node listens on IPv4, IPv6 only or both. Operations are aimed at the current pending candidate more often than chance. An eighth of the IPv4 records carry an address without a UDP port, another eighth IPv4 and IPv6 endpoints together.",
     "C17": " The application sometimes overrides the advertised socket by hand. PINGs to voters sometimes time out (their unexpired votes stand). Every SocketUpdated event must announce an address the record now advertises. Dual-stack mode (per-family votes) is included. The connectivity check (auto-NAT) runs in a quarter of the single-stack and half of the dual-stack runs; in dual-stack mode the clear-majority margin is checked with bounds on the tally (certain votes of connected outgoing peers, possible votes of everybody else). Voters publish new records and answer the node's record requests with NODES responses (no votes).",
     "C18": " Sender addresses are IPv4, IPv4-mapped IPv6 and IPv6. Datagrams are of message kind, handshake kind or a mix. Ban durations down to 100 ms and list edits that lift bans: the window bound must hold across the end of a ban.",
     "C19": FULL_STACK + ": the same uniqueness oracle over all nodes' traffic.",
-    "C20": " Payloads of every size class up to 5000 bytes, possibly empty; the application sometimes panics while holding a request. The application may sit on requests for 50 ms to 10 min of simulated time. Requesters are unknown, known through a session or known from a table entry advertising another socket than the one they send from; a quarter of the runs listen dual-stack. The requester of a held request is sometimes banned before the application responds." + FULL_STACK + ": TALKRESP packets on the wire never outnumber the TalkRequest events, carry a payload the application produced, and match the events in number at the end (unless the node restarted or its handler dropped a response for lack of a session).",
+    "C20": " Payloads of every size class up to 5000 bytes, possibly empty; the application sometimes panics while holding a request. The application may sit on requests for 50 ms to 10 min of simulated time. Requesters are unknown, known through a session or known from a table entry advertising another socket than the one they send from; a quarter of the runs listen dual-stack. The requester of a held request is sometimes banned before the application responds. In dual-stack runs half of the requesters send from the IPv4-mapped form of their address." + FULL_STACK + ": TALKRESP packets on the wire never outnumber the TalkRequest events, carry a payload the application produced, and match the events in number at the end (unless the node restarted or its handler dropped a response for lack of a session).",
 }
 
 NOT_APPLICABLE = {
